@@ -944,7 +944,9 @@ class PeerGetDirectoryContentCommand(BaseCommand[PeerDirectoryContentsReply.Requ
             PeerDirectoryContentsReply.Request,
             peer=self.username,
             fields={
-                'ticket': self._ticket,
+                # The ticket is only generated when the request is sent, this
+                # is after the expected response is built
+                'ticket': lambda ticket: ticket == self._ticket,
                 'directory': self.directory
             }
         )
